@@ -18,7 +18,8 @@ For every *feasible* `σ` (`sat σ (genB I)`):
   the decoded plan consists exactly of the placed batches;
 * **`batch_charged_once`** — at every slot that carries capacity rows, for every worker and
   resource, the requirement of each placed batch **counted once** (not once per member) plus the
-  RUNNING batches fits the worker.
+  RUNNING batches fits the worker; `capacity_at_instant` — hence at every instant of those slots'
+  intervals `[slot k, slot k + disc)` (all starts lie on the grid).
 
 Counterexamples (the code violates the clause; findings C10-TETRI-B1..B3):
 * `raises_counterexample` — a well-formed instance on which `schedule()` raises `ValueError`
@@ -182,6 +183,15 @@ theorem batch_charged_once (h : sat σ (genB I)) (hwf : I.wf = true) {w k : Nat}
     (hk : k < I.nSlotsR) (hw : w < I.nW) (hr : r ∈ (I.worker w).types) :
     I.batchLoad σ w k r ≤ qty (I.worker w).res r :=
   batchLoad_le h hwf hk hw hr
+
+/-- **Capacity at every planned instant of the row horizon**, a batch counted once: for every
+instant `τ` in `[slot k, slot k + disc)` with `k < nSlotsR` the batches of the decoded plan that
+occupy `τ` (half-open `[start, start + runtime)`) plus the RUNNING batches fit the worker. -/
+theorem capacity_at_instant (h : sat σ (genB I)) (hwf : I.wf = true) {w k : Nat} {τ : Int} {r : String}
+    (hk : k < I.nSlotsR) (hw : w < I.nW) (hr : r ∈ (I.worker w).types)
+    (h1 : I.slot k ≤ τ) (h2 : τ < I.slot k + (I.disc : Nat)) :
+    I.loadAt σ w τ r ≤ qty (I.worker w).res r :=
+  Nat.le_trans (loadAt_le hwf h1 h2) (batch_charged_once h hwf hk hw hr)
 
 /-- `batch_charged_once` is the *partial* form of the property's clause "never exceed any worker's
 capacity at any planned instant": it holds at the slots with capacity rows (`k < nSlotsR`), and
